@@ -66,6 +66,24 @@ PLAN = {
         "assumptions": ASSUME_X + ["code-point tables are encoding_rs's: the reference is encoding_rs whole-buffer decoding in the projection", "which source was used is observed through the decoded string (bodies are chosen to decode differently under the candidate charsets)"],
         "replay_runner": "charset", "replay_trace": "Trace_Charset",
     },
+    "C08": {
+        "mc": [],
+        "families": [{"gen": ("tlc", {"name": "target-matrix", "tla": "MC_Target.tla", "cfg": "MC_Target.cfg", "workers": 8}),
+                      "runner": "loop", "trace": "Trace_SendLoop"},
+                     {"gen": ("tlc", {"name": "hop-chains", "tla": "MC_Hops.tla", "cfg": "MC_Hops.cfg", "workers": 8}),
+                      "runner": "loop", "trace": "Trace_SendLoop"}],
+        "rule": "URL shapes (scheme x port absent/default/other x domain/mixed-case/IPv4/IPv6 x path empty/root/segments x query none/some/empty x fragment x userinfo) x proxy (none, http, https; with/without credentials and explicit port) enumerated by TLC; each row is a real send() whose dial request and written request line / Host are judged",
+        "assumptions": ASSUME_X + ["inside a CONNECT tunnel the inner request is not visible to the in-memory peer (TLS); its target form and Host are covered by the real-socket checks"],
+        "replay_runner": "loop", "replay_trace": "Trace_SendLoop",
+    },
+    "C10": {
+        "mc": [],
+        "families": [{"gen": ("tlc", {"name": "hop-chains", "tla": "MC_Hops.tla", "cfg": "MC_Hops.cfg", "workers": 8}),
+                      "runner": "loop", "trace": "Trace_SendLoop"}],
+        "rule": "chains of one or two redirects between URLs that differ in host, port, scheme and proxy applicability (proxied, no_proxy host, near-miss host, https target needing a tunnel), x redirect status x proxy configuration x body kind (empty, text, bytes, file, json, streaming json, form, multipart, custom) x body size, enumerated by TLC; every hop's dial, request line, Host, framing and body octets are judged",
+        "assumptions": ASSUME_X + ["https hops reached directly use the in-memory transport with TLS elided; a hop that must be tunnelled ends at the ClientHello (in-memory peer does not speak TLS)"],
+        "replay_runner": "loop", "replay_trace": "Trace_SendLoop",
+    },
     "C09": {
         "mc": [],
         "families": [{"gen": ("tlc", {"name": "redirect-chains", "tla": "MC_Redirect.tla", "cfg": "MC_Redirect.cfg", "cfg_thorough": "MC_Redirect_thorough.cfg", "workers": 8}),
